@@ -3,6 +3,7 @@ import BHS.Props.SqlShape.Add
 import BHS.Props.ChainSvc
 import BHS.Props.RepoWritesGen
 import BHS.Props.RepoWritesC05
+import BHS.Props.ImportRestart
 open BHS.Props.C05
 #print axioms C05_restart_id
 #print axioms C05_restart_fresh
@@ -25,3 +26,9 @@ open BHS.Props.C05
 #print axioms BHS.Props.RepoWritesGen.RepoM_writes_simulated
 #print axioms BHS.Props.RepoWritesGen.Gen_write_sequence
 #print axioms BHS.Props.RepoWritesGen.C05_struct_valid_at_tx_boundaries
+#print axioms BHS.Props.ImportRestart.import_nonempty_noop
+#print axioms BHS.Props.ImportRestart.import_nonempty_noop_db
+#print axioms BHS.Props.ImportRestart.import_changes_only_an_empty_table
+#print axioms BHS.Props.ImportRestart.import_never_deletes_foreign_rows
+#print axioms BHS.Props.ImportRestart.C05_restart_import_preserves_rows
+#print axioms BHS.Props.ImportRestart.C05_restarts_import_preserve_rows
